@@ -15,6 +15,7 @@ import re
 import z3
 
 from pyvc.harness import Contract
+import pyvc.nxmodel      # noqa  (registers the collections.defaultdict model)
 from pyvc.spec import And, Or, Not, returned
 from pyvc.values import PObj, PDict, PList, PSet, AnyVal, Foreign, Sym, BuiltinMethod, is_sym, decode_z3_string, Unsupported
 from fim.graph.neo4j_property_graph import Neo4jPropertyGraph, Neo4jGraphImporter
@@ -42,6 +43,10 @@ class SessionStub:
         if name == 'run':
             self.log.append((args[0], dict(kw), args[1:]))
             I.ctx.ghost.setdefault('statements', []).append((args[0], dict(kw)))
+            # the server may refuse any statement: the failure paths (handlers that issue clean-up statements) are explored too
+            if I.ctx.ghost.get('driver_failures', 0) < 1 and I.ctx.choose([z3.BoolVal(True)] * 2, 'the driver call fails?') == 1:
+                I.ctx.ghost['driver_failures'] = I.ctx.ghost.get('driver_failures', 0) + 1
+                I.raise_(RuntimeError, 'driver failure')
             return AnyVal('result')
         raise Unsupported(f'driver stub method {name}')
 
@@ -214,14 +219,19 @@ KNOWN_SPLICED = {
     'add_link': {'val_v1'},
     'merge_nodes': {'val_policy', 'val_other_graph_id'},          # + other_graph.graph_exists() (KF-C19-4)
     'find_matching_nodes': {'val_other_graph_id'},                  # through other_graph.graph_exists() (KF-C19-4)
+    'get_matching_nodes_with_components': {'val_v1', 'val_model'},  # KF-C19-8
 }
 
 
 class _RecDriver:
     """native recording driver for replays"""
 
-    def __init__(self):
+    def __init__(self, fail_at=None):
         self.calls = []
+        self.fail_at = fail_at
+
+    def close(self):
+        return None
 
     def session(self, *a, **k):
         return self
@@ -234,6 +244,8 @@ class _RecDriver:
 
     def run(self, q, *a, **kw):
         self.calls.append((q, kw))
+        if self.fail_at is not None and len(self.calls) - 1 == self.fail_at:
+            raise RuntimeError('driver failure (injected)')
         return _RecResult()
 
 
@@ -257,13 +269,14 @@ class _RecResult:
         return iter(())
 
 
-def native_statements(cls, method, values):
-    """call the REAL method around a recording driver with the given value strings; -> list of (text, params)"""
+def native_statements(cls, method, values, fail_at=None):
+    """call the REAL method around a recording driver with the given value strings (optionally making the fail_at-th statement
+    fail, so that handlers run); -> list of (text, params)"""
     import logging
-    drv = _RecDriver()
+    drv = _RecDriver(fail_at)
     pg = cls.__new__(cls)
     pg.__dict__.update(graph_id=values['graph_id'], driver=drv, log=logging.getLogger('replay'), importer=None)
-    kw = NATIVE_ARGS[method](values)
+    kw = NATIVE_ARGS[(cls.__name__, method)](values)
     try:
         getattr(pg, method)(**kw)
     except Exception:   # noqa  (results are empty: the call may fail after issuing its statement)
@@ -288,6 +301,13 @@ def replay_native(cls, method, cname, ctx):
         return differs, dict(operation=method, values_1=v1['val'], values_2=v2['val'], statements_1=t1[:3], statements_2=t2[:3],
                              note='the statement text changes with the stored values (a value containing a quote ends the literal)')
     complaints = []
+    for k in range(3):
+        # the failure paths: the k-th statement is refused by the server
+        try:
+            s1 = s1 + [c for c in native_statements(cls, method, v1, fail_at=k) if c not in s1]
+        except Exception:   # noqa
+            pass
+    t1 = [q for q, _ in s1]
     for q, params in s1:
         complaints += check_wellformed(q)
         complaints += [f'parameter ${nm} not supplied' for nm in set(re.findall(r'\$([A-Za-z_][A-Za-z0-9_]*)', q)) if nm not in params]
@@ -305,9 +325,9 @@ def val(g, name):
 OPS = []
 
 
-def reg(name, method, gen, native):
-    NATIVE_ARGS[method] = native
-    OPS.append(make_op(name, method, gen))
+def reg(name, method, gen, native, cls=Neo4jPropertyGraph, prefix=TN):
+    NATIVE_ARGS[(cls.__name__, method)] = native
+    OPS.append(make_op(name, method, gen, cls=cls, target_prefix=prefix))
 
 
 reg('DeleteGraph', 'delete_graph', lambda g, pg: {}, lambda v: {})
@@ -384,6 +404,41 @@ reg('GraphDiff', 'get_graph_diff', lambda g, pg: dict(other_graph=_other(g, pg),
     lambda v: dict(other_graph=_native_other(v), label='Lbl'))
 reg('GraphPropertyDiff', 'get_graph_property_diff', lambda g, pg: dict(other_graph=_other(g, pg), label=ident(g, 'label')),
     lambda v: dict(other_graph=_native_other(v), label='Lbl'))
+
+# ---- import bookkeeping (Neo4jGraphImporter) and combined-model queries (Neo4jCBMGraph)
+from fim.graph.resources.neo4j_cbm import Neo4jCBMGraph
+from fim.slivers.attached_components import AttachedComponentsInfo, ComponentSliver, ComponentType
+TI = 'fim.graph.neo4j_property_graph:Neo4jGraphImporter.'
+TC = 'fim.graph.resources.neo4j_cbm:Neo4jCBMGraph.'
+
+reg('ImportGraph', '_import_graph', lambda g, pg: dict(graphml_file=val(g, 'file'), graph_id=val(g, 'gid')),
+    lambda v: dict(graphml_file=v['val'], graph_id=v['graph_id']), cls=Neo4jGraphImporter, prefix=TI)
+reg('ImporterDeleteGraph', 'delete_graph', lambda g, pg: dict(graph_id=val(g, 'gid')), lambda v: dict(graph_id=v['graph_id']),
+    cls=Neo4jGraphImporter, prefix=TI)
+reg('ImporterDeleteAllGraphs', 'delete_all_graphs', lambda g, pg: {}, lambda v: {}, cls=Neo4jGraphImporter, prefix=TI)
+
+
+def _comps(g):
+    c = PObj(ComponentSliver, dict(resource_type=ComponentType.GPU, resource_model=val(g, 'model'), resource_name='c'))
+    return PObj(AttachedComponentsInfo, dict(devices=PDict({'c': c}), by_type=PDict()))
+
+
+def _native_comps(v):
+    from fim.slivers.attached_components import ComponentSliver as CS, AttachedComponentsInfo as ACI
+    c = CS()
+    c.resource_type, c.resource_model, c.resource_name = ComponentType.GPU, v['val'], 'c'
+    a = ACI()
+    a.devices['c'] = c
+    return a
+
+
+reg('MatchingNodesWithComponents', 'get_matching_nodes_with_components',
+    lambda g, pg: dict(label=ident(g, 'label'), props=PDict({ident(g, 'p1'): val(g, 'v1')}),
+                       comps=g.pick([None, 'one'], 'components given?') and _comps(g)),
+    lambda v: dict(label='Lbl', props={'P1': v['val']}, comps=_native_comps(v)), cls=Neo4jCBMGraph, prefix=TC)
+for _nm, _m in (('IntersiteLinks', 'get_intersite_links'), ('Sites', 'get_sites'), ('DisconnectedSites', 'get_disconnected_sites'),
+                ('ConnectedSites', 'get_connected_sites'), ('FacilityPorts', 'get_facility_ports')):
+    reg('Cbm' + _nm, _m, lambda g, pg: {}, lambda v: {}, cls=Neo4jCBMGraph, prefix=TC)
 
 CONTRACTS = OPS
 for _c in CONTRACTS:
